@@ -184,7 +184,7 @@ func c11RunScenario(t *testing.T, idx int, sc c11Scenario) c11ScOut {
 					alive++
 				}
 			}
-			res := append([]int(nil), w.results[n]...)
+			res := append([]int{}, w.results[n]...)
 			w.mu.Unlock()
 			sort.Ints(res)
 			out = append(out, []int{reg, alive}, res)
